@@ -408,6 +408,12 @@ func (t *State) PlayForMiner(blockid []byte) error {
 			t.clearBalanceCache()
 		}
 	}()
+	played := false
+	defer func() {
+		if !played {
+			t.discardUncommitted()
+		}
+	}()
 	for _, tx := range block.Transactions {
 		txid := string(tx.Txid)
 		if tx.Coinbase || tx.Autogen {
@@ -437,6 +443,7 @@ func (t *State) PlayForMiner(blockid []byte) error {
 	if err != nil {
 		return err
 	}
+	played = true
 	//写盘成功再清理unconfirm内存镜像
 	for _, tx := range block.Transactions {
 		t.tx.UnconfirmTxInMem.Delete(string(tx.Txid))
@@ -460,6 +467,12 @@ func (t *State) PlayAndRepost(blockid []byte, needRepost bool, isRootTx bool) er
 	}
 	t.utxo.Mutex.Lock()
 	defer t.utxo.Mutex.Unlock()
+	played := false
+	defer func() {
+		if !played {
+			t.discardUncommitted()
+		}
+	}()
 	// 下面开始处理unconfirmed的交易
 	unconfirmToConfirm, undoDone, err := t.processUnconfirmTxs(block, batch, needRepost)
 	if err != nil {
@@ -504,6 +517,7 @@ func (t *State) PlayAndRepost(blockid []byte, needRepost bool, isRootTx bool) er
 	if persistErr != nil {
 		return persistErr
 	}
+	played = true
 	//写盘成功再删除unconfirm的内存镜像
 	for txid := range unconfirmToConfirm {
 		t.tx.UnconfirmTxInMem.Delete(txid)
@@ -843,6 +857,18 @@ func (t *State) ClearCache() {
 	t.log.Info("clear utxo cache")
 }
 
+// discardUncommitted drops every in-memory effect of a batch that is not going
+// to be written: utxo / balance / xmodel caches, the total and the pending meta.
+func (t *State) discardUncommitted() {
+	t.ClearCache()
+	if err := t.utxo.ReloadUtxoTotal(); err != nil {
+		t.log.Warn("failed to reload utxo total", "err", err)
+	}
+	t.meta.MutexMeta.Lock()
+	t.meta.MetaTmp = proto.Clone(t.meta.Meta).(*pb.UtxoMeta)
+	t.meta.MutexMeta.Unlock()
+}
+
 func (t *State) QueryBlock(blockid []byte) (kledger.BlockHandle, error) {
 	block, err := t.sctx.Ledger.QueryBlock(blockid)
 	if err != nil {
@@ -993,6 +1019,11 @@ func (t *State) procUndoBlkForWalk(undoBlocks []*pb.InternalBlock,
 	var showBlkId string
 	var tx *pb.Transaction
 	var showTxId string
+	defer func() {
+		if err != nil {
+			t.discardUncommitted()
+		}
+	}()
 
 	// 依次回滚每个区块
 	for _, undoBlk = range undoBlocks {
@@ -1101,6 +1132,11 @@ func (t *State) procTodoBlkForWalk(todoBlocks []*pb.InternalBlock) (err error) {
 	var showBlkId string
 	var tx *pb.Transaction
 	var showTxId string
+	defer func() {
+		if err != nil {
+			t.discardUncommitted()
+		}
+	}()
 
 	// 依次执行每个块的交易
 	for i := len(todoBlocks) - 1; i >= 0; i-- {
